@@ -104,6 +104,9 @@ func genCContainer(x *sched.Exec) ccScenario {
 				op.Long = r.Intn(5) < 2
 			case k < 10:
 				op = ccOp{Op: "swapnil"}
+				if r.Intn(3) == 0 {
+					op = ccOp{Op: "swappanic"}
+				}
 			case k < 11:
 				op = ccOp{Op: "get"}
 			default:
@@ -179,6 +182,14 @@ func (d *ccDriver) opFunc(c *ccClient, pi int, op ccOp) sched.Op {
 				return out
 			})
 			x.Log(trace.E{"ev": "ret", "id": id, "xid": xid, "res": "ok", "val": val, "actor": name})
+		}}
+	case "swappanic":
+		// a SwapValue whose callback panics (the application recovers): the cell keeps its value and stays
+		// usable -- to the monitor nothing happened
+		return sched.Op{Label: label, Do: func() {
+			x.Log(trace.E{"ev": "note", "what": "swap callback panics", "actor": name})
+			defer func() { _ = recover() }()
+			d.ctr.SwapValue(func(v int) int { panic("harness: this SwapValue callback panics") })
 		}}
 	case "swapnil", "get":
 		return sched.Op{Label: label, Do: func() {
